@@ -41,7 +41,8 @@ def _post(lines, verdicts):
         return out
     n = len(lines)
     # not-run: set-up failed five times in a row (no free address/port, ...), or the driver found a broken
-    # correspondence while the runner's own runtime was starved (stall >= 200 ms): counted, small cap
+    # correspondence of a shape starvation explains (pool log order / spurious keepalive timeout) while the
+    # runner's own runtime was starved (stall >= 200 ms): counted, small cap
     sk = [ln for ln, v in zip(lines, verdicts) if (v or "").startswith("ok skipped")]
     if len(sk) * 50 > n:
         out.append(("diff", sk[0][:300], f"diff {len(sk)} of {n} cases were not run (set-up failed / runner starved; cap 2 %)"))
@@ -58,7 +59,7 @@ def _post(lines, verdicts):
             kv = dict(t.split("=", 1) for t in obs.split() if "=" in t)
             if fk.startswith("2x"):
                 fk = fk[2:]
-                # the second fault really fired: two pool connections of node 0 were cut / closed after a fault
+                # the second fault really fired: at least two connection ends (F@/R@/X@, any node) in the case
                 if sum(kv.get("conns", "").count(x) for x in ("F@", "R@", "X@")) >= 2:
                     twice += 1
             kinds[fk] = kinds.get(fk, 0) + 1
@@ -94,11 +95,11 @@ def _post(lines, verdicts):
         if refills < 150:
             out.append(("diff", lines[0][:300], f"diff only {refills} cases where a replacement pool connection was observed after a break (floor 150)"))
         if kills < 200:
-            out.append(("diff", lines[0][:300], f"diff only {kills} burst rounds really killed a connection (floor 200)"))
+            out.append(("diff", lines[0][:300], f"diff only {kills} connections were really killed (R@/F@) in burst cases (floor 200)"))
         if broken_reqs < 500:
             out.append(("diff", lines[0][:300], f"diff only {broken_reqs} requests failed with a broken-connection error (floor 500)"))
         if mid_frame_cuts < 80:
-            out.append(("diff", lines[0][:300], f"diff only {mid_frame_cuts} cuts inside a frame were really performed (floor 80)"))
+            out.append(("diff", lines[0][:300], f"diff only {mid_frame_cuts} fin/rst cases with a cut at a byte offset 1..59 (frames are 49-109 bytes) were really performed (floor 80)"))
     return out
 
 
@@ -127,15 +128,16 @@ SPEC = {
     "trusted_base": [
         "mocknode (harness/src/mocknode): own CQL v4 frame codec, records every byte it wrote and every frame it read per connection",
         "runner harness/src/bin/c10.rs: maps mocknode's trace to the connection-model alphabet; completion bound 21.2 s (keepalive interval + timeout + 20 s margin), typical completion < 1.3 s; reports the largest scheduling stall of its own runtime per case",
-        "driver ocaml/c10/driver.ml: conversion of the case line into the extracted types, search over the delivered prefix after a TCP reset, the OCaml-only clauses of the predicate (bound, follow-up, probes, aux, panic), error-class table, 200 ms log-order tolerance of pool events, starvation not-run (stall >= 200 ms turns a diff into a counted not-run, never a viol)",
+        "driver ocaml/c10/driver.ml: conversion of the case line into the extracted types, search over the delivered prefix after a TCP reset, the OCaml-only clauses of the predicate (bound, follow-up, probes, aux, panic), error-class table, 200 ms log-order tolerance of pool events, starvation not-run (stall >= 200 ms turns a pool-log-order diff, or a diff that disappears when the err:broken.KeepaliveTimeout results of a case with a keepalive in its trace are left out, into a counted not-run; no other diff, never a viol)",
     ],
     "assumptions": [
         "stream-id allocation is an oracle in Model/ConnFail.v (any free id); the bitmap allocator is C02's subject",
         "TCP: bytes written before an orderly FIN are delivered; after RST any prefix of the written frames may have been delivered (driver tries every prefix)",
         "wall-clock promptness is measured by the tie against a generous bound, not proved",
         "the pool machine is tied through the connection ids observed at the mock for one-connection pools (shards = 0): the recorded a/g/b events, with PProcess inserted by pool_labels before the next replacement (never observed itself), must be a run; a non-run is a diff",
-        "non-idempotent requests the mock never saw must fail with a root cause of a connection that broke in the case (model run), broken.ChannelError or pool (C10_root_cause)",
-        "accept_obs (proved sound) is evaluated before ok except in corr/short/garb cases where the mock mis-framed the stream and the body is justified by the model's frame-aligned reader",
+        "C10_root_cause is tied by a class-set check, not by a model run: a non-idempotent request the mock never saw (it is in no trace) must fail with a class in the union of the root causes of all connections that broke in the case (all delivered-prefix candidates), broken.ChannelError or pool; which connection it was queued on is not observed",
+        "accept_obs (proved sound) is evaluated before ok except (a) in corr/short/garb cases where the mock mis-framed the stream and the body is justified by the model's frame-aligned reader, (b) in a case with an excused hang (mis-framing kind, connection alive to the end of the trace, model run ends open, frame-aligned (empty read buffer) with the request pending): there accept_obs is off for the whole case",
+        "a viol found by a burst case is the outcome of a race (about 2 % per burst case against the pre-fix router): a single replay usually does not reproduce it; C10_REPLAY_REPEAT=<k> re-executes the burst cases of a replay k times",
     ],
 }
 
